@@ -29,7 +29,8 @@ class Fields:
         return self.c.fpol(psi)
 
     def fpolprime(self, psi, eps=None):
-        if self.c.desc["family"] == "C":
+        if self.c.desc["family"] in ("C", "T"):
+            # circular: dfpol/dpsi is not used by that class' curvature; TORPEX: fpol is constant
             return 0.0 * numpy.asarray(psi)
         # derivative of the clipped generating cubic: central difference of the exact polynomial
         span = abs(self.c.psi1D[-1] - self.c.psi1D[0])
